@@ -62,6 +62,47 @@ def running_failure_scenarios(tier, seed, tail):
     return out
 
 
+def orders_after_master_loss(tier, seed, tail):
+    """supvisors.restart / shutdown issued on a non-Master at every micro-step after the Master crashed (before and
+    after the loss is noticed, during the new election): whatever the instant, the published states stay on the
+    documented graph (an ending state is only entered under a running Master)."""
+    from recorder import Driver
+    out = []
+    cfg = cl.Config(n=3, sync=('LIST', 'TIMEOUT'))
+    traces, recs = [], {}
+    k = 0
+    for order in ('restart', 'shutdown'):
+        for micro in range(0, 36, 3 if tier == 'quick' else 1):
+            c = cl.make_cluster(cfg)
+            c.auto_orders = True
+            d = Driver(c)
+            try:
+                for n in c.nodes:
+                    d.boot(n)
+                for _ in range(8):
+                    d.fair_round()
+                d.crash('n1')
+                done = 0
+                ring = ['n2', 'n3']
+                while done < micro:
+                    pend = sorted(c.pending())
+                    if pend:
+                        d.proxy(*pend[0])
+                    else:
+                        d.tick(ring[0])
+                        ring = ring[1:] + ring[:1]
+                    done += 1
+                d.rpc('n2', order)
+                cl.fair_tail(d, cfg, 6)
+            finally:
+                c.close()
+            traces.append(cl.mon_trace(k, d.rec, cfg, False, True))
+            recs[k] = d.rec
+            k += 1
+    out.append((cfg, traces, recs))
+    return out
+
+
 def main(tier, seed, replay=None):
     if replay:
         return cc.replay_file(replay)
@@ -88,4 +129,4 @@ def main(tier, seed, replay=None):
                 cl.Config(n=2, crash=1, restart=1, user=3, sync=('USER',))]
     return cc.run('C02', tier, seed, LABELS, [], e1, [], ['StepsC02'], sim, rnd,
                   n_beh=48 if q else 400, beh_depth=150, n_rnd=40 if q else 400, rnd_steps=250,
-                  e1_timeout=600 if q else 1500, extra_scenarios=[running_failure_scenarios])
+                  e1_timeout=600 if q else 1500, extra_scenarios=[running_failure_scenarios, orders_after_master_loss])
